@@ -2079,6 +2079,24 @@ HandleRFBServerMessage(rfbClient* client)
     }
     */
 
+    /* no colour map is kept, but the entries have to be read: otherwise they are taken for
+       the messages that follow */
+    {
+      int i;
+      uint16_t rgb[3];
+
+      if (!ReadFromRFBServer(client, ((char *)&msg) + 1,
+			     sz_rfbSetColourMapEntriesMsg - 1))
+	return FALSE;
+
+      msg.scme.nColours = rfbClientSwap16IfLE(msg.scme.nColours);
+
+      for (i = 0; i < msg.scme.nColours; i++) {
+	if (!ReadFromRFBServer(client, (char *)rgb, 6))
+	  return FALSE;
+      }
+    }
+
     break;
   }
 
